@@ -171,6 +171,30 @@ func genC13(t *rapid.T) c13Case {
 		}
 		c.More = append(c.More, st)
 	}
+	if rapid.IntRange(0, 5).Draw(t, "selfbinding?") == 0 {
+		// A variable-looking string as *data* that a pattern binds to the
+		// variable of the same name ("?w" -> "?w"), and a later conjunct or
+		// rule condition that uses the variable again.  (Each pattern
+		// holds the variable once: the matcher dependency's recursion on
+		// repeated variables is the known finding and stays excluded.)
+		switch rapid.IntRange(0, 2).Draw(t, "selfbinding") {
+		case 0:
+			c.More = []c13Step{
+				{Role: "fact", Id: "", Doc: M{"kind": "g", "template": "?w"}},
+				{Role: "query", Id: "", Doc: M{"and": A{M{"pattern": M{"template": "?w"}}, M{"pattern": M{"kind": "?k", "template": "?w"}}}}},
+			}
+		case 1:
+			c.More = []c13Step{
+				{Role: "rule", Id: "h1", Doc: M{"when": M{"pattern": M{"greet": M{"name": "?w"}}}, "condition": M{"pattern": M{"kind": "?w"}}, "action": M{"code": "'hostile'"}}},
+				{Role: "event", Id: "", Doc: M{"greet": M{"name": "?w"}}},
+			}
+		default:
+			c.More = []c13Step{
+				{Role: "fact", Id: "", Doc: M{"t": M{"name": "?w"}}},
+				{Role: "query", Id: "", Doc: M{"and": A{M{"pattern": M{"t": "?w"}}, M{"pattern": M{"t": "?w"}}}}},
+			}
+		}
+	}
 	return c
 }
 
